@@ -64,11 +64,7 @@ void vp_res(u32 tid, u32 slot, u32 ok, u32 val) {
 /* kinds are scenario constants: the checker below has concrete control */
 static const int KIND[MAXOPS] = { OA0, OA1, OB0, OB1, OC0, OC1 };
 #define PREVAL(i) (0x1000u + (unsigned)(i))
-#ifdef CONCRETE_VALS
-static unsigned mkval(unsigned id) { return 0x2000u | id; }
-#else
-static unsigned mkval(unsigned id) { return ((unsigned)vp_nd() << 8) | id; }
-#endif   /* symbolic payload, unique low byte */
+static unsigned mkval(unsigned id) { return ((unsigned)vp_nd() << 8) | id; }   /* symbolic payload, unique low byte */
 
 /* sequential specification state used by the checker */
 #define SPECMAX (PRE_PUSH + MAXOPS + 1)
@@ -153,6 +149,7 @@ int main(void) {
     for (int j = i + 1; j < MAXOPS; j++) if (KIND[j] == K_POP && H[j].ok)
       VP_ASSERT(H[j].val != H[i].val, "the same item was popped twice");
   }
+  VP_ASSERT(Q.f1 == &REP, "my_queue_representation changed (the unit treats it as immutable while threads run)");
   VP_ASSERT(vp_q_invalid(&Q) == 0, "n_invalid_entries != 0 without any failed push");
   VP_ASSERT((long)vp_q_size(&Q) == (long)(PRE_PUSH - PRE_POP + npush - npop_ok), "size() != pushes - successful pops at quiescence");
   VP_ASSERT(vp_q_tail(&Q) == (u64)(PRE_PUSH + npush), "tail ticket != number of pushes");
